@@ -328,6 +328,54 @@ class R:
                 continue
             if fshort == "_amend_abstract_attributes":
                 out.append({"include": "amend"})
+        # `x = element.find(NS_AAS + "m")` … `_failsafe_construct(x, ctor, cls.failsafe)`
+        varmember: Dict[str, str] = {}
+        for n in ast.walk(fn):
+            if isinstance(n, ast.Assign) and isinstance(n.value, ast.Call) and src(n.value.func) == f"{elem}.find" and \
+                    isinstance(n.targets[0], ast.Name) and n.value.args and ns_name(n.value.args[0]):
+                varmember[n.targets[0].id] = ns_name(n.value.args[0])
+        for n in ast.walk(fn):
+            if isinstance(n, ast.Call) and src(n.func) == "_failsafe_construct" and n.args and isinstance(n.args[0], ast.Name) \
+                    and n.args[0].id in varmember and len(n.args) > 1:
+                for r_ in out:
+                    if r_.get("member") == varmember[n.args[0].id] and not r_.get("ctor"):
+                        r_["ctor"] = src(n.args[1])
+        return out
+
+    def item_recover(self, name: str) -> set:
+        """members whose items are constructed through _child_construct_multiple / _failsafe_construct_multiple"""
+        fn = self.body_of(name)
+        out = set()
+        if fn is None:
+            return out
+        varmember: Dict[str, str] = {}
+        loop_tags: List[str] = []
+        for n in ast.walk(fn):
+            if isinstance(n, ast.Assign) and isinstance(n.value, ast.Call) and isinstance(n.targets[0], ast.Name) and n.value.args:
+                f = src(n.value.func)
+                if f == "element.find":
+                    m = ns_name(n.value.args[0])
+                    if m:
+                        varmember[n.targets[0].id] = m
+                    elif isinstance(n.value.args[0], ast.Name):
+                        varmember[n.targets[0].id] = "$loop"
+                if f == "_get_child_mandatory" and len(n.value.args) > 1:
+                    m = ns_name(n.value.args[1]) or (re.fullmatch(r"namespace \+ ['\"](\w+)['\"]", src(n.value.args[1])) or [None, None])[1]
+                    if m:
+                        varmember[n.targets[0].id] = m
+            if isinstance(n, ast.For) and isinstance(n.iter, ast.Tuple) and isinstance(n.target, ast.Tuple):
+                loop_tags = [ns_name(t.elts[0]) for t in n.iter.elts]
+        for n in ast.walk(fn):
+            if isinstance(n, ast.Call) and src(n.func) in ("_child_construct_multiple", "_failsafe_construct_multiple") and n.args:
+                v = src(n.args[0])
+                if varmember.get(v) == "$loop":
+                    out.update(t for t in loop_tags if t)
+                elif v in varmember:
+                    out.add(varmember[v])
+                else:
+                    m2 = re.fullmatch(r"_get_child_mandatory\(element, NS_AAS \+ ['\"](\w+)['\"]\)", v)
+                    if m2:
+                        out.add(m2.group(1))
         return out
 
     def item_tags(self, name: str) -> Dict[str, str]:
@@ -396,6 +444,7 @@ def build(repo: str) -> Dict[str, Any]:
     abstract_rows = w.rows_of("abstract_classes_to_xml")
     amend_rows = r.reads("_amend_abstract_attributes")
     amend_items = r.item_tags("_amend_abstract_attributes")
+    amend_irec = r.item_recover("_amend_abstract_attributes")
     # lang string item tags: writer dict, reader per construct function
     lss_writer: Dict[str, str] = {}
     for n in ast.walk(w.funcs["lang_string_set_to_xml"]):
@@ -461,6 +510,9 @@ def build(repo: str) -> Dict[str, Any]:
                 rrows.setdefault(x["member"], x)
         items_r = dict(amend_items)
         items_r.update(r.item_tags(rfn))
+        irec = set(amend_irec) | r.item_recover(rfn)
+        if cls in ("ExternalReference", "ModelReference"):
+            irec |= r.item_recover("_construct_key_tuple")
         if cls in ("ExternalReference", "ModelReference"):
             items_r.update(r.item_tags("_construct_key_tuple"))
         spec = dict(meta.META.get(cls) or helper_spec[cls])
@@ -521,6 +573,8 @@ def build(repo: str) -> Dict[str, Any]:
                 "kind": kind, "optional": opt, "noFalsy": nofalsy, "enumVals": ev, "dflt": dflt,
                 "emptyText": empty, "canBeEmpty": J.can_be_empty(sk) if cls != "OperationVariable" else False,
                 "flags": x.get("flags", []), "item": x.get("item"),
+                "recover": bool(rr and not rr["required"] and rr.get("ctor") and kind != "leaf"),
+                "itemRecover": member in irec,
             })
         for attr in spec:
             if attr not in seen:
@@ -556,7 +610,10 @@ def build(repo: str) -> Dict[str, Any]:
         if isinstance(n, ast.ClassDef) and n.name == "XMLConstructables":
             enum_members = [t.targets[0].id for t in n.body if isinstance(t, ast.Assign)]
     anc = {c: sorted(J.ancestors(graph, c)) for c in WRITER_FUNC if c in graph}
+    rec = [{"cls": ct["cls"], "rows": [{"member": x["member"], "recover": x.get("recover", False), "itemRecover": x.get("itemRecover", False),
+                                       "itemCaught": []} for x in ct["rows"]]} for ct in table]
     return {"table": table, "enums": enums, "xsdNames": J.xsd_names(repo), "unrecognised": w.unrec + r.unrec, "problems": problems,
+            "recPoints": rec,
             "catch": r.catch, "readerDispatch": rdispatch, "lssWriter": lss_writer, "lssReader": lss_reader,
             "writerDispatch": wdispatch_first, "constructables": constructables, "constructableMembers": enum_members,
             "ancestors": anc, "writerFunc": {c: f for c, f in WRITER_FUNC.items() if c in graph},
